@@ -126,12 +126,13 @@ def data_program(rnd):
     """programs that lean on the parts of the object built from tables of the compiler: string
     and float data, reflection metadata for many types (core.println prints through type info),
     several files"""
-    prim = ["i32", "u8", "i64", "f64", "bool", "str", "u16", "f32", "char"]
+    prim = ["i32", "u8", "i64", "f64", "bool", "str", "u16", "f32", "char", "u128", "i128"]
     lit = {"i32": lambda: str(rnd.randint(0, 999)), "u8": lambda: str(rnd.randint(0, 200)),
            "i64": lambda: str(rnd.randint(0, 10**9)), "f64": lambda: "%d.%d" % (rnd.randint(0, 99), rnd.randint(1, 99)),
-           "bool": lambda: rnd.choice(["true", "false"]), "str": lambda: '"%s %s"' % (rnd.choice(WORDS), rnd.choice(WORDS)),
+           "bool": lambda: rnd.choice(["true", "false"]), "str": lambda: '"%s %s"' % (rnd.choice(WORDS[:3]), rnd.choice(WORDS)),
            "u16": lambda: str(rnd.randint(0, 60000)), "f32": lambda: "%d.5" % rnd.randint(0, 99),
-           "char": lambda: "'%s'" % rnd.choice("abcxyz")}
+           "char": lambda: "'%s'" % rnd.choice("abcxyz"),
+           "u128": lambda: str(rnd.randint(0, 2**62)), "i128": lambda: str(rnd.randint(0, 2**60))}
     types = []      # (name, kind, fields)
     defs = []
     for i in range(rnd.randint(2, 6)):
